@@ -755,7 +755,7 @@ func (n *MapLiteralNode) String() string {
 		if i > 0 {
 			expr += ", "
 		}
-		expr += fmt.Sprintf("'%s': %s", k, n.Items[k].String())
+		expr += quoteString(k) + ": " + n.Items[k].String()
 	}
 	return expr + "]"
 }
@@ -931,4 +931,32 @@ func operand(n Node) string {
 
 func (n *TernNode) Children() []Node {
 	return []Node{n.Arg1, n.Arg2, n.Arg3}
+}
+
+// quoteString quotes s as a Soy string literal.
+func quoteString(s string) string {
+	var b bytes.Buffer
+	b.WriteByte('\'')
+	for _, ch := range s {
+		switch ch {
+		case '\\':
+			b.WriteString(`\\`)
+		case '\'':
+			b.WriteString(`\'`)
+		case '\n':
+			b.WriteString(`\n`)
+		case '\r':
+			b.WriteString(`\r`)
+		case '\t':
+			b.WriteString(`\t`)
+		case '\b':
+			b.WriteString(`\b`)
+		case '\f':
+			b.WriteString(`\f`)
+		default:
+			b.WriteRune(ch)
+		}
+	}
+	b.WriteByte('\'')
+	return b.String()
 }
